@@ -395,7 +395,7 @@ def SqlProgram(engine, pos, ctx, lits):
 
 
 def _SqlBatch(d, pos, ctx, lits, values):
-  """-> [(status, sql, detail)], ref, at, len   or None (caller isolates)."""
+  """-> [(status, sql, detail)], ref, mpos   or None (caller isolates)."""
   m = impl.Mods()
   text = SqlProgram(d, pos, ctx, lits)
   try:
@@ -412,12 +412,11 @@ def _SqlBatch(d, pos, ctx, lits, values):
     if len(lits) > 1:
       return None
     return ([(_Status(e), '', '%s: %s' % (type(e).__name__,
-                                          impl.ExcText(e)[:300]))], '', 1, 0)
+                                          impl.ExcText(e)[:300]))], '', 1)
   ref = program.FormattedPredicateSql('M')
-  mk = EmitLiteral(d, MARKER)
-  if ref.count(mk) != 1:
-    raise RuntimeError('marker literal occurs %d times for %r' % (
-        ref.count(mk), (d, pos, ctx)))
+  if ref.count(MARKER) != 1:
+    raise RuntimeError('marker occurs %d times for %r' % (
+        ref.count(MARKER), (d, pos, ctx)))
   res = []
   for i in range(len(lits)):
     try:
@@ -427,7 +426,7 @@ def _SqlBatch(d, pos, ctx, lits, values):
         raise
       res.append((_Status(e), '', '%s: %s' % (type(e).__name__,
                                               impl.ExcText(e)[:300])))
-  return res, ref, ref.index(mk) + 1, len(mk)
+  return res, ref, ref.index(MARKER) + 1
 
 
 def _SqlTask(task):
@@ -442,13 +441,13 @@ def _SqlTask(task):
     if out is None:
       parts = [_SqlBatch(d, pos, ctx, [l], [v]) for l, v in zip(lits, values)]
     else:
-      parts = [([r], out[1], out[2], out[3]) for r in out[0]]
+      parts = [([r], out[1], out[2]) for r in out[0]]
   recs = []
-  for s, l, (res, ref, at, ln) in zip(strings, lits, parts):
+  for s, l, (res, ref, mpos) in zip(strings, lits, parts):
     st, sql, detail = res[0]
     written = s if pos == 'user' else l
     rec = {'k': 'sql', 'd': d, 'pos': pos, 'ctx': ctx, 'form': form,
-           'lit': written, 'ref': ref, 'at': at, 'len': ln,
+           'lit': written, 'ref': ref, 'mpos': mpos,
            'status': st, 'sql': sql, '_key': s,
            'id': 's:%s:%s:%s:%s:%s' % (d, pos, ctx, form,
                                        json.dumps(Cps(written)))}
